@@ -29,10 +29,10 @@ def _copy_tree(src_root: str, dst_root: str):
     shutil.copytree(os.path.join(src_root, "pyairtouch"), os.path.join(dst_root, "pyairtouch"), ignore=shutil.ignore_patterns("__pycache__"))
 
 
-def _analyse(pid: str, root: str):
+def _analyse(pid: str, root: str, repo=None):
     from .main import analyse
 
-    ctx, obs = analyse(pid, root, "quick")
+    ctx, obs = analyse(pid, root, "quick", repo=repo)
     apply_known(pid, obs)
     viol = [o for o in obs if o.verdict == VIOLATION]
     if ctx.analysis_error and not viol:
@@ -65,11 +65,17 @@ def _run_variant(job):
                 return {"id": job["id"], "status": "skipped", "why": f"variant does not compile: {ex}"}
             open(path, "w", encoding="utf-8").write(src)
         out = {"id": job["id"], "status": "ok", "hits": {}}
-        from .model import AnalysisError
+        from .model import AnalysisError, Repo
 
+        repo = None
+        if len(job["props"]) > 1:
+            try:
+                repo = Repo(base)  # one parse for all properties of this variant (rules never modify the model)
+            except AnalysisError as ex:
+                return {"id": job["id"], "status": "ok", "hits": {pid: [f"ANALYSIS-ERROR {ex}"] for pid in job["props"]}}
         for pid in job["props"]:
             try:
-                v = _analyse(pid, base)
+                v = _analyse(pid, base, repo)
                 out["hits"][pid] = [f"{o.rule} {o.construct}" for o in v][:5]
             except AnalysisError as ex:
                 out["hits"][pid] = [f"ANALYSIS-ERROR {ex}"]
